@@ -32,7 +32,7 @@ def run_family(pid, tier, family, invariants, props, cats, bounds, sample_n, j=1
         d = os.path.join(root, prog['name'])
         os.makedirs(d, exist_ok=True)
         mh, mcm = prog.get('bounds', (max_hist, max_cmds))
-        if tier == 'thorough' and 'bounds' in prog:
+        if tier == 'thorough' and 'bounds' in prog and not prog.get('fixed_bounds'):
             mh, mcm = mh + 1, mcm + 1
         invs = [x for x in invariants if x not in prog.get('skip_invariants', ())]
         prs = [x for x in props if x not in prog.get('skip_invariants', ())]
